@@ -252,7 +252,7 @@ func runC15(c *wk.Ctx) {
 		}
 	}
 	c.Meta("cov.bound_matrix_pairs", len(matrix))
-	nGen := c.N(3000, 120000)
+	nGen := c.N(3000, 1200000)
 	total := int64(len(matrix)) + nGen
 	judge := func(class string, a, b schema.Type, sa, sb *gen.Shape, wantNil bool, descr string) {
 		if isRecursive(sa) && isRecursive(sb) && class != "self" {
